@@ -1,1 +1,9 @@
 import PytezosModel.Props.C30
+#print axioms C30.config_eq
+#print axioms C30.apply_render
+#print axioms C30.roundtrip
+#print axioms C30.script_exists
+#print axioms C30.no_hunks_empty_patch
+#print axioms C30.apply_rejects_non_header
+#print axioms C30.apply_rejects_bad_line
+#print axioms C30.protocol_roundtrip
